@@ -236,7 +236,7 @@ def cases(tier):
                             pd=pd, d2s=d2s, depth_mode='symbolic', via='convention', second=second),
                        patches=depthcommon.patches, max_paths=200)
     # positive attribute missing: the sign is guessed from the values (concrete depth values, symbolic data)
-    for vals in ((0.5, 1.5, 2.5), (-0.5, -1.5, -2.5), (4.0, 2.0, 0.5), (-4.0, -2.0)) if q else \
+    for vals in ((0.5, 1.5, 2.5), (-0.5, -1.5, -2.5), (4.0, 2.0, 0.5), (-4.0, -2.0), (-20.0, -10.0, -5.0, -1.0, 1000.0), (30.0, 20.0, 5.0, -500.0)) if q else \
             ((0.5, 1.5, 2.5), (-0.5, -1.5, -2.5), (4.0, 2.0, 0.5), (-4.0, -2.0), (-3.0, -2.0, -1.0, -0.25), (9.0, 5.0)):
         for (pd, d2s) in opts:
             yield Case(f'guess:{"_".join(map(str, vals))}:pd{pd}:d2s{d2s}', body,
